@@ -41,6 +41,10 @@ def run(ctx, facts):
     ctx.rule("N1", "retain passes Some(observed pointer of the same entry); retain_force passes None; both pass no new value", floor=2)
     ctx.rule("N2", "replace_node removes only on the true edge of a pointer-identity test of the value loaded under the validated lock", floor=2)
     ctx.rule("N3", "retain / retain_force call the predicate under no lock", floor=2)
+    ctx.rule("N4", "the retain / retain_force methods of the reference wrappers and of the set delegate to the map method of the same name "
+                   "(rule L6 of C01): a wrapper that forwards retain_force to retain silently keeps entries whose value changed", floor=4)
+    from .rules_c01 import rule_l6
+    rule_l6(ctx, facts, rule="N4", only_ops=("retain", "retain_force"))
     # the compare-and-remove routine(s): bodies with an `observed value` parameter (Option<Shared<V>>); recognised by type so that a
     # rename or a wrapper/inner split does not blind the rule
     def obs_param(b):
@@ -230,33 +234,42 @@ def run(ctx, facts):
             elif cd["kind"] == "call":
                 uc = cd["call"]
                 tb = facts.by_id.get(uc.resolved)
+                def closure_permit(mc, dflt, spelled):
+                    """`mc` applies a closure to the observation: the closure is one pointer-identity comparison with a value stored in
+                    this region"""
+                    if not fl.derives_from_arg(op_root(mc.args[0]), OBS):
+                        problems.append("the compared option is not the observed_value parameter")
+                        return
+                    cl = op_root(mc.args[1])
+                    ch = rn.ty(cl)["head"] if cl is not None else ""
+                    cb = facts.by_id.get(ch[len("closure:"):]) if ch.startswith("closure:") else None
+                    ptr_eq = cb is not None and any(is_ptr_cmp(x) == "eq" for x in cb.calls) and len([x for x in cb.calls]) == 1
+                    cap_ok = False
+                    for kind, data, pt in fl.sources(cl):
+                        if kind == "agg":
+                            for o in data["rv"]["ops"]:
+                                if stored_in_region(rn, op_root(o), v):
+                                    cap_ok = True
+                    if not ptr_eq:
+                        problems.append("the comparison is not pointer identity of the two Shared values")
+                    elif not cap_ok:
+                        problems.append("the stored value is not loaded inside the validated lock region")
+                    elif dflt not in (0, 1):
+                        problems.append("the default for a missing observation is not a constant")
+                    else:
+                        permits.append(((blk, cd["true"]), spelled % bool(dflt), dflt == 1))
                 if callee_str(uc).endswith("Option::unwrap_or"):
                     # observed_value.map(|ov| ov == stored).unwrap_or(default)
                     dflt = uc.args[1].get("int")
                     for mc in fl.call_roots(op_root(uc.args[0])):
                         if mc is None or not callee_str(mc).endswith("Option::map"):
                             continue
-                        if not fl.derives_from_arg(op_root(mc.args[0]), OBS):
-                            problems.append("the compared option is not the observed_value parameter")
-                            continue
-                        cl = op_root(mc.args[1])
-                        ch = rn.ty(cl)["head"] if cl is not None else ""
-                        cb = facts.by_id.get(ch[len("closure:"):]) if ch.startswith("closure:") else None
-                        ptr_eq = cb is not None and any(is_ptr_cmp(x) == "eq" for x in cb.calls) and len([x for x in cb.calls]) == 1
-                        cap_ok = False
-                        for kind, data, pt in fl.sources(cl):
-                            if kind == "agg":
-                                for o in data["rv"]["ops"]:
-                                    if stored_in_region(rn, op_root(o), v):
-                                        cap_ok = True
-                        if not ptr_eq:
-                            problems.append("the comparison is not pointer identity of the two Shared values")
-                        elif not cap_ok:
-                            problems.append("the stored value is not loaded inside the validated lock region")
-                        elif dflt not in (0, 1):
-                            problems.append("the default for a missing observation is not a constant")
-                        else:
-                            permits.append(((blk, cd["true"]), "map(|ov| ov == stored).unwrap_or(%s)" % bool(dflt), dflt == 1))
+                        closure_permit(mc, dflt, "map(|ov| ov == stored).unwrap_or(%s)")
+                elif callee_str(uc).endswith(("Option::is_none_or", "Option::is_some_and")) and len(uc.args) == 2:
+                    # the same predicate by its library name: true / false for a missing observation
+                    closure_permit(uc, 1 if callee_str(uc).endswith("is_none_or") else 0, callee_str(uc).rsplit("::", 1)[-1] + "(|ov| ov == stored) [None -> %s]")
+                elif callee_str(uc).endswith("Option::map_or") and len(uc.args) == 3:
+                    closure_permit(type("M", (), {"args": [uc.args[0], uc.args[2]]})(), uc.args[1].get("int"), "map_or(%s, |ov| ov == stored)")
                 elif tb is not None and tb.ty(0)["s"] == "bool":
                     ko = ks = None
                     for k, a in enumerate(uc.args):
